@@ -360,6 +360,15 @@ def remove_stream(prefix, family="bcast", caps=(1, 2), fut=False):
             k += 1
             out.append(scenario(name, family, fut, cap, "busy", t.setup, threads,
                                 final_phase(t, dropped, probe=("tx" not in dropped))))
+            if variant == 0:
+                # the same with the slow stream held by a single-consumer (view) receiver: it leaves by drop or by
+                # unsubscribe
+                for how in ("drop", "unsub"):
+                    th2 = [threads[0], [S(how, "s2")], threads[2]]
+                    name = "%s-%s%s-uni-c%d-%d" % (prefix, family, "F" if fut else "", cap, k)
+                    k += 1
+                    out.append(scenario(name, family, fut, cap, "busy", t.setup + [S("into_single", "s2")], th2,
+                                        final_phase(t, dropped, probe=False)))
     return out
 
 
